@@ -50,6 +50,11 @@ HISTORIES = {
     "flag_last_holder": (["@start", app("inbox", 1), app("inbox", 2), app("inbox", 3, "(\\Seen)"), "SELECT inbox"],
                          ["STORE 2 +FLAGS (\\Flagged kw1)", "STORE 2 -FLAGS (\\Flagged)", "NOOP", "STORE 3 +FLAGS (\\Deleted)",
                           "STORE 3 -FLAGS (\\Deleted)", "STORE 2 +FLAGS (\\Flagged)", "STORE 2 FLAGS ()", "STORE 3 -FLAGS (\\Seen)", "NOOP"]),
+    # the message that is removed is the lowest-numbered unseen one (what SELECT reports as UNSEEN); two messages go, so
+    # that the removal has several durable effects to be killed between
+    "expunge_lowest_unseen": (["@start", app("inbox", 1), app("inbox", 2), app("inbox", 3), app("inbox", 4), "SELECT inbox",
+                               "STORE 1:2 +FLAGS (\\Deleted)"],
+                              ["EXPUNGE", "NOOP", "STORE 1 +FLAGS (kw1)"]),
     "namespace": (["@start", "CREATE aa/bb", app("aa/bb", 1), app("aa", 2), "SUBSCRIBE aa"],
                   ["RENAME aa/bb cc", "DELETE aa", "CREATE aa", "RENAME inbox old", app("cc", 3), "DELETE cc"]),
 }
@@ -360,7 +365,8 @@ def run(ctx):
                             "and fetched, and the ledger of acknowledged results compared; thorough adds a delivery made while "
                             "the server was down; non-trivial = the crash fell inside a command that had already performed an effect")
     ok = ctx.prove("Properties/C11.v")
-    hists = list(HISTORIES) if ctx.thorough else ["first_start", "append_store_expunge", "expunge_tail_then_delivery", "namespace", "copy_move", "pack"]
+    hists = list(HISTORIES) if ctx.thorough else ["first_start", "append_store_expunge", "expunge_tail_then_delivery", "namespace", "copy_move", "pack",
+                                                   "expunge_lowest_unseen"]
     # dry runs: how many effects does each history have?
     with mp.get_context("fork").Pool(min(core.NPROC, len(hists))) as pool:
         dry = pool.map(crash_case, [(h, 10 ** 9, False) for h in hists], chunksize=1)
